@@ -2380,7 +2380,7 @@ Proof.
   - unfold new_constraint, parse_uint in *; destruct m; simpl in *; try discriminate; reflexivity.
   - unfold new_constraint; simpl. destruct b; reflexivity.
   - unfold new_constraint. simpl. destruct ((s =? "any") || (s =? "true") || (s =? "false")) eqn:E1; [reflexivity|].
-    destruct (is_user_type_name s); [reflexivity|]. simpl in Ha0. unfold mem in Ha0. rewrite Ha0. reflexivity.
+    destruct (is_user_type_name s); [reflexivity|]. simpl in Ha0. rewrite Ha0. reflexivity.
   - destruct c as [|[|c]]; try discriminate. reflexivity.
   - destruct (user_type_kind s) as [[| | | | | |]|] eqn:Eu; try discriminate.
     rewrite (user_type_kind_some s _ Eu). reflexivity.
@@ -2392,7 +2392,7 @@ Lemma new_constraint_addprops : forall v,
   | Some t =>
     if (t =? "any") || (t =? "true") || (t =? "false") then Ok (CAddProps None)
     else if is_user_type_name t then Ok (CAddProps (Some t))
-    else if mem t valid_schema_types then Ok (CAddProps None)
+    else if addprops_type_name t then Ok (CAddProps None)
     else Err ErrUnknownJSchemaType
   | None => Err ErrUnknownJSchemaType
   end.
@@ -2684,7 +2684,7 @@ Proof.
     destruct ((s =? "any") || (s =? "true") || (s =? "false")) eqn:Es.
     + destruct (is_user_type_name s) eqn:Eu; [|reflexivity]. exfalso.
       repeat (apply orb_true_iff in Es; destruct Es as [Es|Es]); apply String.eqb_eq in Es; subst; discriminate.
-    + destruct (is_user_type_name s); [exact Hfi|]. cbn [orb]. destruct (mem s valid_schema_types); [reflexivity|discriminate].
+    + destruct (is_user_type_name s); [exact Hfi|]. cbn [orb]. destruct (addprops_type_name s); [reflexivity|discriminate].
   - unfold r_allof in Hao. destruct (get_str "allOf" R) as [s|]; [|reflexivity].
     destruct (user_type_kind s) as [[| | | | | |]|]; try discriminate. reflexivity.
 Qed.
@@ -3181,7 +3181,7 @@ Proof.
       destruct ((s =? "any") || (s =? "true") || (s =? "false")); [reflexivity|].
       destruct (is_user_type_name s).
       * destruct (user_type_kind s); [reflexivity|discriminate].
-      * destruct (mem s valid_schema_types); reflexivity.
+      * destruct (addprops_type_name s); reflexivity.
   - (* array *)
     unfold r_items. destruct Sob_parts as [X1 [X2 _]]. apply andb_true_iff. split.
     + destruct (get_nat "minItems" R); [apply negb_ltb_of; exact X1|reflexivity].
